@@ -1,4 +1,99 @@
-From Coq Require Import NArith List Bool Arith Lia.
+(* C14 -- proofs about Model/Tree.v.
+   Part 1: lists / keys.  Part 2: the slot map (get/set/insert/remove/clear algebra, free-list invariant, shapes).
+   Part 3: the tree invariant WF and the refinement of the forest specification, operation by operation. *)
+From Coq Require Import NArith List Bool Arith Lia PeanoNat.
 From TV Require Import Model.Tree.
 Import ListNotations.
-Lemma stub : True. Proof. exact I. Qed.
+
+Set Implicit Arguments.
+
+(* ------------------------------------------------------------------ Part 1: keys and lists *)
+
+Lemma key_eqb_spec (a b : key) : reflect (a = b) (key_eqb a b).
+Proof.
+  destruct a as [i v], b as [j w]. unfold key_eqb. simpl.
+  destruct (Nat.eqb_spec i j), (N.eqb_spec v w); simpl; constructor; congruence.
+Qed.
+
+Lemma key_eqb_refl a : key_eqb a a = true.
+Proof. destruct (key_eqb_spec a a); congruence. Qed.
+
+Lemma key_eqb_sym a b : key_eqb a b = key_eqb b a.
+Proof. destruct (key_eqb_spec a b), (key_eqb_spec b a); congruence. Qed.
+
+Lemma key_eq_dec (a b : key) : {a = b} + {a <> b}.
+Proof. destruct (key_eqb_spec a b); auto. Qed.
+
+Ltac keq a b := destruct (key_eqb_spec a b); subst; try congruence.
+
+Lemma mem_In k l : mem k l = true <-> In k l.
+Proof.
+  unfold mem. rewrite existsb_exists. split.
+  - intros [x [Hx He]]. keq k x.
+  - intros H. exists k. split; auto. apply key_eqb_refl.
+Qed.
+
+Lemma mem_false k l : mem k l = false <-> ~ In k l.
+Proof. rewrite <- mem_In. destruct (mem k l); split; congruence. Qed.
+
+(* upd *)
+Lemma upd_length A (l : list A) i x : length (upd l i x) = length l.
+Proof. revert i. induction l; destruct i; simpl; auto. Qed.
+
+Lemma nth_error_upd_eq A (l : list A) i x : i < length l -> nth_error (upd l i x) i = Some x.
+Proof. revert i. induction l; destruct i; simpl; intros; try lia; auto. apply IHl. lia. Qed.
+
+Lemma nth_error_upd_neq A (l : list A) i j x : i <> j -> nth_error (upd l i x) j = nth_error l j.
+Proof. revert i j. induction l; destruct i, j; simpl; intros; try congruence; auto. Qed.
+
+Lemma upd_map A B (f : A -> B) l i x : map f (upd l i x) = upd (map f l) i (f x).
+Proof. revert i. induction l; destruct i; simpl; auto. f_equal. auto. Qed.
+
+Lemma upd_same A (l : list A) i x : nth_error l i = Some x -> upd l i x = l.
+Proof. revert i. induction l; destruct i; simpl; intros; try congruence. f_equal. auto. Qed.
+
+Lemma nth_error_Some_lt A (l : list A) i x : nth_error l i = Some x -> i < length l.
+Proof. intros H. apply nth_error_Some. congruence. Qed.
+
+Lemma In_upd A (l : list A) i x y : In y (upd l i x) -> y = x \/ In y l.
+Proof. revert i. induction l; destruct i; simpl; intros; intuition. apply IHl in H0. intuition. Qed.
+
+Lemma upd_split A (l : list A) i x y : nth_error l i = Some y -> upd l i x = firstn i l ++ x :: skipn (S i) l.
+Proof. revert i. induction l; destruct i; simpl; intros; try congruence. f_equal. auto. Qed.
+
+Lemma nth_split A (l : list A) i y : nth_error l i = Some y -> l = firstn i l ++ y :: skipn (S i) l.
+Proof. revert i. induction l; destruct i; simpl; intros; try congruence. f_equal. auto. Qed.
+
+(* membership in the Vec results *)
+Lemma In_vec_insert A (l : list A) i x y : In y (vec_insert l i x) <-> y = x \/ In y l.
+Proof.
+  unfold vec_insert. rewrite in_app_iff. simpl. rewrite <- (firstn_skipn i l) at 4. rewrite in_app_iff. intuition.
+Qed.
+
+Lemma NoDup_vec_insert A (l : list A) i x : NoDup l -> ~ In x l -> NoDup (vec_insert l i x).
+Proof.
+  intros Hn Hx. unfold vec_insert. rewrite <- (firstn_skipn i l) in Hn, Hx.
+  apply NoDup_remove_inv. 2: exact Hx. exact Hn.
+Qed.
+
+Lemma NoDup_app_remove_mid A (a b : list A) x : NoDup (a ++ x :: b) -> NoDup (a ++ b) /\ ~ In x (a ++ b).
+Proof. apply NoDup_remove. Qed.
+
+Lemma NoDup_vec_remove A (l : list A) i : NoDup l -> NoDup (vec_remove l i).
+Proof.
+  intros Hn. unfold vec_remove. destruct (nth_error l i) eqn:E.
+  - rewrite (nth_split l i E) in Hn. apply NoDup_remove in Hn. tauto.
+  - apply nth_error_None in E. rewrite firstn_all2, skipn_all2 by lia. rewrite app_nil_r. auto.
+Qed.
+
+Lemma In_vec_remove A (l : list A) i y : In y (vec_remove l i) -> In y l.
+Proof.
+  unfold vec_remove. rewrite in_app_iff. intros [H|H].
+  - eapply In_firstn; eauto. - eapply In_skipn; eauto.
+Qed.
+
+Lemma In_firstn A (l : list A) n y : In y (firstn n l) -> In y l.
+Proof. intros H. rewrite <- (firstn_skipn n l). apply in_or_app. auto. Qed.
+
+Lemma In_skipn A (l : list A) n y : In y (skipn n l) -> In y l.
+Proof. intros H. rewrite <- (firstn_skipn n l). apply in_or_app. auto. Qed.
